@@ -255,8 +255,12 @@ def write_foreign(f, path):
             v = f.variables[k]
             a = v[...]
             dt = np.dtype(v.dtype)
-            data = np.ma.getdata(a)
+            data = np.array(np.ma.getdata(a))
             masked = isinstance(a, np.ma.MaskedArray)
+            # (plain numpy objects: netCDF4 reshapes what it is handed)
+            a = np.ma.MaskedArray(data, mask=np.array(
+                np.ma.getmaskarray(a)), fill_value=getattr(
+                    a, 'fill_value', None)) if masked else data
             atts = {ak: v.getncattr(ak) if hasattr(v, 'getncattr')
                     else getattr(v, ak) for ak in v.ncattrs()
                     if ak not in ('_FillValue', 'fill_value')}
